@@ -629,7 +629,7 @@ def run_case(c):
         ph.save("phonopy_disp.yaml")
         rng = np.random.default_rng(c["seed"])
 
-        def run_front_end(file_list, label):
+        def run_front_end(file_list, label, fz=False):
             py = PhonopyYaml()
             py.read("phonopy_disp.yaml")
             if os.path.exists("FORCE_SETS"):
@@ -639,7 +639,7 @@ def run_case(c):
                 import io
 
                 with contextlib.redirect_stdout(io.StringIO()):
-                    create_FORCE_SETS("vasp", file_list, phpy_yaml=py, disp_filename="phonopy_disp.yaml", log_level=0)
+                    create_FORCE_SETS("vasp", file_list, phpy_yaml=py, disp_filename="phonopy_disp.yaml", log_level=0, force_sets_zero_mode=fz)
             except (RuntimeError, ValueError, AssertionError) as e:
                 return "refused", None
             if not os.path.exists("FORCE_SETS"):
@@ -678,6 +678,43 @@ def run_case(c):
             if st == "accepted" and np.abs(fs - F).max() > 1e-9:
                 bad("forcesets_pairing", "create_FORCE_SETS accepted an output with permuted atoms and attached forces to the wrong atoms (max diff %.3e)" % np.abs(fs - F).max(), fault="permuted_atoms")
             obs["forcesets_" + st] = obs.get("forcesets_" + st, 0) + 1
+        # the same faults in residual-force mode (--fz: the first file is the perfect supercell, its forces are subtracted from all others): the
+        # outputs carry F + R, the perfect cell R, so FORCE_SETS must hold F again - or the call refuses
+        R = 1e-3 * rng.standard_normal((n, 3))
+        vasprun("vasprun-000.xml", sc, R)
+        zfiles = []
+        for i, scd in enumerate(ph.supercells_with_displacements):
+            fn = "vasprun-z%03d.xml" % (i + 1)
+            vasprun(fn, scd, F[i] + R)
+            zfiles.append(fn)
+        st, fs = run_front_end(["vasprun-000.xml"] + zfiles, "clean, zero mode", fz=True)
+        obs["forcesets_zero_mode"] = obs.get("forcesets_zero_mode", 0) + 1
+        if st != "accepted" or np.abs(fs - F).max() > 1e-9:
+            bad("forcesets_pairing", "create_FORCE_SETS(force_sets_zero_mode=True) on clean outputs: %s, max force difference %s" % (st, None if fs is None else np.abs(fs - F).max()), fault="none", zero_mode=True)
+        if ndisp >= 2:
+            i, j = rng.choice(ndisp, 2, replace=False)
+            sw = list(zfiles)
+            sw[i], sw[j] = sw[j], sw[i]
+            st, fs = run_front_end(["vasprun-000.xml"] + sw, "swapped files, zero mode", fz=True)
+            obs["forcesets_faults_zero_mode"] = obs.get("forcesets_faults_zero_mode", 0) + 1
+            same_disp = np.allclose(ph.dataset["first_atoms"][i]["displacement"], ph.dataset["first_atoms"][j]["displacement"]) and ph.dataset["first_atoms"][i]["number"] == ph.dataset["first_atoms"][j]["number"]
+            if st == "accepted" and not same_disp and np.abs(fs - F).max() > 1e-9:
+                bad("forcesets_pairing", "create_FORCE_SETS(force_sets_zero_mode=True) accepted swapped calculator outputs and paired forces with the wrong displacement (max diff %.3e)" % np.abs(fs - F).max(),
+                    fault="swapped_files", zero_mode=True)
+        if not np.array_equal(perm, np.arange(n)):
+            vasprun("permz.xml", pc, (F[k] + R)[perm])
+            fl = list(zfiles)
+            fl[k] = "permz.xml"
+            st, fs = run_front_end(["vasprun-000.xml"] + fl, "permuted atoms, zero mode", fz=True)
+            obs["forcesets_faults_zero_mode"] = obs.get("forcesets_faults_zero_mode", 0) + 1
+            if st == "accepted" and np.abs(fs - F).max() > 1e-9:
+                bad("forcesets_pairing", "create_FORCE_SETS(force_sets_zero_mode=True) accepted an output with permuted atoms and attached forces to the wrong atoms (max diff %.3e)" % np.abs(fs - F).max(),
+                    fault="permuted_atoms", zero_mode=True)
+            # a displaced cell handed in as the perfect supercell
+            st, fs = run_front_end([zfiles[0]] + zfiles, "displaced cell in the perfect-cell slot", fz=True)
+            obs["forcesets_faults_zero_mode"] += 1
+            if st == "accepted" and np.abs(fs - F).max() > 1e-9:
+                bad("forcesets_pairing", "create_FORCE_SETS(force_sets_zero_mode=True) accepted a displaced cell as the perfect supercell (max diff %.3e)" % np.abs(fs - F).max(), fault="displaced_as_perfect", zero_mode=True)
         os.chdir(cwd)
         return {"viol": viol, "nontrivial": True, "key": "fs|%s|%s" % (c["crystal"]["name"], c["crystal"].get("order_seed")), "obs": obs, "evals": len(files),
                 "sample": {"kind": "forcesets", "crystal": c["crystal"], "n_files": len(files)}}
